@@ -20,6 +20,11 @@ NA = {
 }
 
 CLAIMS = {
+    'C07': dict(
+        category='exploration', technique='deterministic simulation: seeded operation histories with swarm-disabled op kinds, cooperative reader tasks (live iterators stepped between mutations), invariant vs. a scan reference model after every step',
+        engine='history-machine+E4-tasks',
+        text='Seeded histories over every classname/targetname mutation path (create_ent, Entity()+add_ent, add_ents, remove_ent, Entity.remove, re-add, [], del, update, pop, clear, setdefault, make_unique, copy within/across maps, export+parse, worldspawn re-class) in all letter cases, interleaved by the scheduler with next() steps of live iterators over by_class/by_target/search/iter_ents. After every step both maps are compared with a scan of entities+spawn (stale, missing, search results, worldspawn), and readers must not raise, duplicate or lose an untouched member.',
+        note='Weakest reading of case-insensitive matching is judged (key convention is not); Entity.__hash__ replaced by a serial for replay; histories sampled.', ref='5/C07'),
     'C13': dict(
         category='exploration', technique='deterministic simulation: seeded operation histories on an in-memory disk with reopen = restart from durable bytes, checked against a dict reference model and an independent decoder of the directory file',
         engine='E2-simfs',
